@@ -284,11 +284,13 @@ def rule_e(ctx):
 def rule_f(ctx):
     F = ctx.facts
     fin = F.one("render::text_renderer::TextDecorator::finalise")
-    cls = [cb for _bb, _i, cb, _o, _f in closure_bodies_created_in(F, fin)]
-    require(len(cls) == 1, "default finalise must map entries through one closure")
-    cb = cls[0]
+    # the line is built either in the closure of `enumerate().map(..)` or in the body of a `for (idx, s) in .. enumerate()` loop
+    bodies_ = [fin] + [cb2 for _bb, _i, cb2, _o, _f in closure_bodies_created_in(F, fin)]
+    cands = [b2 for b2 in bodies_ if b2.calls(lambda cd, t: ends(cd, "TaggedLine::<T>::from_string"))]
+    require(len(cands) == 1, "default finalise must build its lines in one place")
+    cb = cands[0]
     fs = cb.calls(lambda cd, t: ends(cd, "TaggedLine::<T>::from_string"))
-    require(len(fs) == 1, "default finalise closure must build one TaggedLine::from_string")
+    require(len(fs) == 1, "default finalise must build one TaggedLine::from_string per entry")
     t = fs[0][1]
     nd = cb.calls(lambda cd, t: ends(cd, "Argument::<'_>::new_display"))
     ctx.floor("C08-F", "format arguments of the default footnote line", len(nd), 2)
